@@ -215,6 +215,19 @@ func init() {
 						}
 					}
 					text := strings.Join(kept, "\n")
+					// no options at all: the verdict of a plain read does not depend on presets used by unrelated readers
+					// and files before it (options are per message, never process-wide)
+					plain0 := doRead(text, 0, nil, io.EOF, "nil", nil)
+					for _, preset := range []string{"in", "out", "in"} {
+						_ = doRead(texts[tn], 0, nil, io.EOF, preset, nil)
+						if preset == "in" {
+							_ = wire.NewFile(wire.IncomingFile())
+						} else {
+							_ = wire.NewFile(wire.OutgoingFile())
+						}
+						again := doRead(text, 0, nil, io.EOF, "nil", nil)
+						o.Case("prop:options-routes-agree", sameOr(verdictOnly(plain0), verdictOnly(again)), text, preset, "nil", "plain-read-after-unrelated-preset")
+					}
 					for _, op := range optionSets() {
 						if op == nil {
 							continue
